@@ -275,6 +275,12 @@ def wideText (buf : Bytes) : Res (Text × Nat) :=
   | .panic e => .panic e
   | .outOfFuel => .outOfFuel
 
+/-- target → part path (xlsx `read_workbook`, and xlsb since `fix: xlsb absolute relationship targets`): `/xl/…` loses its slash, `xl/…` is kept, anything else gets `xl/` in front -/
+def xlsxPath (r : List Char) : List Char :=
+  if "/xl/".toList.isPrefixOf r then r.drop 1
+  else if "xl/".toList.isPrefixOf r then r
+  else "xl/".toList ++ r
+
 /-- (Since the C03/C06 `fix:` commits on `read_workbook` and `fill_buffer` every record shorter than the fixed
     part of its layout, and a relationship id missing from workbook.bin.rels, is `Err(Unrecognized{typ: "<record>:len"
     | "BrtBundleSh:relId", ..})` instead of a slice / map-index panic; `fill_buffer` leaves exactly the payload in
@@ -294,7 +300,7 @@ def bundleSh (rels : List (Text × String)) (buf : Bytes) : Res (Option (Sheet T
         match rels.lookup relid with
         | none => .err (unrec "BrtBundleSh:relId" (toString relid.length))
         | some target =>
-          let path := "xl/".toList ++ target.toList
+          let path := xlsxPath target.toList
           match Gen.xlsbVisTable.lookup (Xlsb.u32le buf) with
           | none => .err (unrec "BoundSheet8:hsState" (toString (Xlsb.u32le buf)))
           | some vis =>
@@ -513,12 +519,6 @@ def localName (n : String) : String :=
   | none => n
 
 /-! ### xlsx `read_workbook` -/
-
-/-- target → part path: `/xl/…` loses its slash, `xl/…` is kept, anything else gets `xl/` in front -/
-def xlsxPath (r : List Char) : List Char :=
-  if "/xl/".toList.isPrefixOf r then r.drop 1
-  else if "xl/".toList.isPrefixOf r then r
-  else "xl/".toList ++ r
 
 structure SheetAcc where
   name : String := ""
